@@ -83,8 +83,9 @@ pub fn expected(spec: &Spec) -> Result<Expected, Reject> {
                 }
             }
             Line::Need { srv, v } => {
-                let a = e.needs.entry(srv.clone()).or_insert_with(|| vec![0.0; n]);
-                for t in 0..n {
+                // a demand may be declared with another number of values than the components (e.g. annual)
+                let a = e.needs.entry(srv.clone()).or_insert_with(|| vec![0.0; v.len()]);
+                for t in 0..v.len().min(a.len()) {
                     a[t] += v[t] as f64;
                 }
             }
